@@ -21,7 +21,7 @@ RULE = ('every builtin exception class (incl. exception groups, OSError family v
         'non-Exception classes arrive as the identical object. non-trivial = class has data beyond the message.')
 ASSUMPTIONS = ['public attributes = dir() minus dunder names, plus args', 'CPython 3.12 builtin exception set']
 WITNESSES = ['same_class_caught', 'traceback_kept', 'user_attribute_kept', 'message_extended', 'baseexception_untouched',
-             'nested_depth3', 'scope_named', 'reference_site', 'sequence_of_raises']
+             'nested_depth3', 'scope_named', 'reference_site', 'sequence_of_raises', 'midway_annotation_kept']
 
 CURRENT = [None]
 
@@ -42,8 +42,22 @@ def setup():
   @gin.configurable(module='c17')
   def consumer(p=None):
     return p
-  global RAISER, MID, OUTER, CONSUMER
-  RAISER, MID, OUTER, CONSUMER = raiser, mid, outer, consumer
+
+  @gin.configurable(module='c17')
+  def annotating_mid():
+    """Catches what the inner configurable raised, annotates THAT exception object and re-raises it."""
+    try:
+      return raiser()
+    except Exception as e:  # pylint: disable=broad-except
+      e.retryable = ('annotated', id(CURRENT[0]) % 7)
+      e.args = tuple(e.args) + ('seen by annotating_mid',)
+      raise
+
+  @gin.configurable(module='c17')
+  def outer_of_annotating():
+    return annotating_mid()
+  global RAISER, MID, OUTER, CONSUMER, ANN_MID, ANN_OUTER
+  RAISER, MID, OUTER, CONSUMER, ANN_MID, ANN_OUTER = raiser, mid, outer, consumer, annotating_mid, outer_of_annotating
 
 
 # ----------------------------------------------------------------------------------- exception factories
@@ -341,9 +355,43 @@ SEQ_CLASSES = ['UBase', 'USub', 'USubSub', 'UExtra', 'UMulti', 'UOs', 'KeyError'
                'FileNotFoundError', 'UStr', 'USlots']
 
 
+def run_annotated(cname, depth, res):
+  """The exception raised inside configurable `annotating_mid` is the (proxy) object it annotated and re-raised:
+  the caller must read the annotation and the rewritten args on what it receives, at any further nesting."""
+  desc = ['annotated', cname, depth]
+  harness.hard_reset()
+  orig = all_factories()[cname]()
+  CURRENT[0] = orig
+  res.case(tuple(desc), True)
+  base_args = tuple(orig.args)
+  try:
+    (ANN_MID if depth == 2 else ANN_OUTER)()
+    res.violation('not_raised', '%r: nothing raised' % (desc,), desc)
+    return
+  except Exception as e:  # pylint: disable=broad-except
+    got = e
+  if not isinstance(got, type(orig)):
+    return  # construction failures are reported by the plain cases (open finding)
+  want = ('annotated', id(orig) % 7)
+  r = getattr(got, 'retryable', '<missing>')
+  if r != want:
+    res.violation('midway_annotation_lost', '%r: attribute set on the exception inside an intermediate configurable reads '
+                  '%r for the caller, expected %r' % (desc, r, want), desc)
+    return
+  if tuple(got.args) != base_args + ('seen by annotating_mid',):
+    res.violation('midway_args_lost', '%r: args rewritten inside an intermediate configurable read %r for the caller, '
+                  'expected %r' % (desc, got.args, base_args + ('seen by annotating_mid',)), desc)
+    return
+  res.w('midway_annotation_kept')
+  res.outcome('annotated')
+
+
 def gen(tier):
   for c, s, d in itertools.product(sorted(all_factories()), SITES, DEPTHS):
     yield [c, s, d]
+  for c in ['ValueError', 'KeyError', 'UExtra', 'UBase', 'USub', 'UMulti', 'UStr', 'LookupError', 'RuntimeError']:
+    for d in (2, 3):
+      yield ['annotated', c, d]
   for a, b in itertools.permutations(SEQ_CLASSES, 2):
     yield ['seq', [a, b], 'body']
   for t in itertools.permutations(['UBase', 'USub', 'USubSub'], 3):
@@ -369,6 +417,8 @@ def run_shard(i, tier):
     try:
       if c[0] == 'seq':
         run_seq(c[1], c[2], res)
+      elif c[0] == 'annotated':
+        run_annotated(c[1], c[2], res)
       else:
         run_case(c[0], c[1], c[2], res)
     except Exception:  # pylint: disable=broad-except
@@ -385,6 +435,8 @@ def replay(c):
   res = core.Result()
   if c[0] == 'seq':
     run_seq(c[1], c[2], res)
+  elif c[0] == 'annotated':
+    run_annotated(c[1], c[2], res)
   else:
     run_case(c[0], c[1], c[2], res)
   harness.hard_reset()
